@@ -682,7 +682,10 @@ register("C11",
          "providers / values / arguments / fields, consumers of I and of C (identity seen by consumers of I = identity produced for C); "
          "matrix: 44 (interface, concrete) pairs for wire.Bind and wire.InterfaceValue — value and pointer receivers, promoted methods, "
          "interface-to-interface (superset, subset, unrelated, itself), embedded interfaces, aliases, interfaces and types of another "
-         "package — verdict by Go's method-set rules, accepted ones compiled; non-trivial = program with a binding / each pair",
+         "package — verdict by Go's method-set rules, accepted ones compiled; bind stream: real processBind / processInterfaceValue "
+         "on type-checked random declarations (value and pointer receivers, methods promoted from embedded T and *T, shadowed and "
+         "ambiguous names, embedded interfaces, wrong arities and shapes, with and without bindToUsePointer) against WireV.processBind; "
+         "non-trivial = program with a binding / each pair / accepted bind request",
          [planner_part("C11", _nt_bind),
           e2e_part("C11", [("b", {"units": [1, 2]}),
                            # injectors whose interface result is bound to one of several arguments implementing it
@@ -693,4 +696,7 @@ register("C11",
                    _pairs_c02, {"C11"},
                    lambda ur: any(it["kind"] == "bind" for it in ur.u.items) and (ur.impl or "").startswith("ok"),
                    n_quick=120, n_thorough=1000),
-          _c11_matrix])
+          _c11_matrix,
+          # the front half: real processBind / processInterfaceValue on type-checked random method declarations
+          stream_part("C11", lambda tier: [("bind", "bind", ["-seed", seed(), "-n", 12000 if tier == "quick" else 150000])],
+                      nontrivial=lambda case, im: case.get("op") == "bind" and im.startswith("ok"))])
